@@ -2,7 +2,7 @@ SPECIFICATION GenSpec
 CONSTANTS
   RecordHist = TRUE
   FixF4 = FALSE
-  FixF36 = FALSE
+  FixF36 = TRUE
   Users = {"u1", "u2", "u3", "u4"}
   Consumers = {"u3", "u4"}
   Actors = {"u3", "u4", "u1"}
